@@ -152,7 +152,7 @@ let run_cr (a : string list) : string =
           (match m.m_reg with NotOpen -> "closed" | Open true -> "open-bad" | Open false -> "open")) sessions in
     String.concat " / " outs
 
-(* ---- text state reader: TX cv:<name>,.. b:<kw>.<type>.<name>.<kind>,.. t:<tok>,<tok>,..   tok = { | } | <word number> *)
+(* ---- text state reader: TX cv:<name>,.. b:<kw>.<type>.<name>.<kind>[.<k<id>|w<n>|b<id> joined by +>],.. t:<tok>,<tok>,..   tok = { | } | <word number> *)
 let run_tx (a : string list) : string =
   let field p = List.fold_left (fun acc t ->
       if String.length t >= String.length p && String.sub t 0 (String.length p) = p
@@ -161,8 +161,17 @@ let run_tx (a : string list) : string =
   let cvs = List.map (fun x -> n_of_int (int_of_string x)) (items (field "cv:")) in
   let bs = List.filter_map (fun x ->
       match String.split_on_char '.' x with
-      | [kw; ty; nm; kd] -> Some { b_kw = n_of_int (int_of_string kw); b_type = n_of_int (int_of_string ty);
-                                   b_name = n_of_int (int_of_string nm); b_kind = nat_of_int (int_of_string kd) }
+      | kw :: ty :: nm :: kd :: rest ->
+        let layout = match rest with
+          | [] -> []
+          | lay :: _ -> List.filter_map (fun e ->
+              if String.length e < 2 then None else
+                let v = int_of_string (String.sub e 1 (String.length e - 1)) in
+                match e.[0] with
+                | 'k' -> Some (DKey (n_of_int v)) | 'w' -> Some (DWords (nat_of_int v)) | 'b' -> Some (DBlock (n_of_int v))
+                | _ -> None) (String.split_on_char '+' lay) in
+        Some { b_kw = n_of_int (int_of_string kw); b_type = n_of_int (int_of_string ty);
+               b_name = n_of_int (int_of_string nm); b_kind = nat_of_int (int_of_string kd); b_layout = layout }
       | _ -> None) (items (field "b:")) in
   let toks = List.map (fun x -> if x = "{" then TO else if x = "}" then TC else TW (n_of_int (int_of_string x))) (items (field "t:")) in
   if load_c cvs bs toks then "err" else "ok"
